@@ -665,8 +665,20 @@ def _c14() -> List[Obl]:
 C10_IDS = ['unary', 'gamma', 'delta', 'omega', 'vbyte_be', 'vbyte_le', 'zeta2', 'zeta3', 'zeta4', 'zeta5', 'zeta6', 'zeta7', 'zeta8', 'zeta9', 'zeta10', 'rice1', 'rice2', 'rice3', 'rice4', 'rice5', 'rice6', 'rice7', 'rice8', 'rice9', 'rice10', 'pi1', 'pi2', 'pi3', 'pi4', 'pi5', 'pi6', 'pi7', 'pi8', 'pi9', 'pi10', 'golomb3', 'golomb5', 'golomb6', 'golomb7', 'golomb9', 'golomb10', 'exp_golomb1', 'exp_golomb2', 'exp_golomb3', 'exp_golomb4', 'exp_golomb5', 'exp_golomb6', 'exp_golomb7', 'exp_golomb8', 'exp_golomb9', 'exp_golomb10']
 
 
-def _c10() -> List[Obl]:
+def _verus_dispatch(prop: str) -> List[Obl]:
     out = []
+    for fn, real in (("dyn_write", "<Codes as DynamicCodeWrite>::write (Codes::write)"), ("dyn_read", "<Codes as DynamicCodeRead>::read (Codes::read)"),
+                     ("code_len_dispatch", "<Codes as CodeLen>::len")):
+        out.append(Obl(id=f"{prop.lower()}.verus.dispatch.{fn}", prop=prop, engine="verus", target=f"dispatch:{fn}", fns=[real],
+                       note="every variant and every accepted parameter: the dispatcher has exactly the effect of the named code's own method (relational; "
+                            "the codes' effects are uninterpreted functions)"))
+    out.append(Obl(id=f"{prop.lower()}.verus.zeta1_is_gamma", prop=prop, engine="verus", target="zeta:lemma_zeta1_is_gamma", fns=[],
+                   note="discharges the axiom of the dispatch unit: zeta_1 and gamma have identical codewords and lengths for every value"))
+    return out
+
+
+def _c10() -> List[Obl]:
+    out = _verus_dispatch("C10")
     reps = ["gamma", "delta", "omega", "zeta3", "zeta5", "rice4", "pi1", "pi2", "golomb3", "exp_golomb2", "vbyte_be", "vbyte_le"]
     mechs = (("codes_enum", "Codes::{read,write,len}"), ("const", "ConstCode<ID>::{read,write,len}"),
              ("func", "FuncCodeReader/FuncCodeWriter/FuncCodeLen::new + call"), ("factory", "FactoryFuncCodeReader::{new,get}"),
